@@ -17,6 +17,7 @@ func init() {
 }
 
 func ruleR2ScopeBinding(c *Ctx) []Obligation {
+	r2LoopCtx = c
 	roles := vmCompRoles(c)
 	// the registrar, by the same role as in R-frame-slots
 	var registrar *types.Func
@@ -76,7 +77,7 @@ func ruleR2ScopeBinding(c *Ctx) []Obligation {
 			if g == nil {
 				return false
 			}
-			if g == registrar || g == roles.insert {
+			if g == registrar || r2EmitIdx(c).isForward(g) || r2EmitIdx(c).singleOf(g) != nil {
 				return true
 			}
 			if _, ok := roles.scopes.push[g]; ok {
@@ -146,11 +147,22 @@ func ruleR2ScopeBinding(c *Ctx) []Obligation {
 						}
 					}
 				case evCall:
-					if e.Fn != roles.insert || e.Deferred || len(e.Call.Args) == 0 {
+					if e.Deferred {
+						continue
+					}
+					// an emission (primitive, forwarding wrapper, single-instruction helper) carrying the name
+					em, isEm := r2EmitIdx(c).of(fn, e.Call)
+					if !isEm {
 						continue
 					}
 					for o, pd := range open {
-						if !vmMentionsObj(info, e.Call.Args[0], o) {
+						carries := false
+						for _, a := range em.args {
+							if a != nil && vmMentionsObj(info, a, o) {
+								carries = true
+							}
+						}
+						if !carries {
 							continue
 						}
 						v := verdicts[keyOf(pd.call)]
